@@ -27,14 +27,14 @@ type HyperLogLog32 struct {
 }
 
 // NewHyperLogLog32 returns a new HyperLogLog32 sketch. The value of prec
-// must be in the range [4, 32]. NewHyperLogLog32 will allocate a byte slice
+// must be in the range [4, 31]. NewHyperLogLog32 will allocate a byte slice
 // that is 2^prec long.
 func NewHyperLogLog32(prec int, h hash.Hash32) (*HyperLogLog32, error) {
 	// The implementation here is based on the pseudo-code in
 	// "HyperLogLog: the analysis of a near-optimal cardinality
 	// estimation algorithm", figure 3.
 
-	if prec < 4 || w32 < prec {
+	if prec < 4 || w32 <= prec {
 		return nil, errors.New("card: precision out of range")
 	}
 	p := uint8(prec)
@@ -214,7 +214,7 @@ func (h *HyperLogLog32) UnmarshalBinary(b []byte) error {
 	if err != nil {
 		return err
 	}
-	if h.p < 4 || w32 < h.p || len(h.register) != 1<<h.p {
+	if h.p < 4 || w32 <= h.p || len(h.register) != 1<<h.p {
 		return errors.New("card: register length does not match precision")
 	}
 	return nil
